@@ -573,7 +573,7 @@ func checkC20(w *World) {
 		}
 		w.check(P, "R20.3", "-a writes one record per node in order", execFn.Pos(), perNode, fmt.Sprintf("%v", perNode))
 	}
-	w.floor(P, "R20.3", 6)
+	w.floorSites(P, "R20.3", 6)
 
 	// R20.4 newline replacement in XML mode
 	var xmlWriter *ssa.Function
@@ -643,7 +643,7 @@ func checkC20(w *World) {
 		}
 		w.check(P, "R20.4", "serialiser covers every node kind, unshadowed", ser.Pos(), len(missing) == 0 && len(nodeSwitchShadows(ser)) == 0, fmt.Sprintf("missing kinds: %v; shadowed arms: %d", missing, len(nodeSwitchShadows(ser))))
 	}
-	w.floor(P, "R20.4", 3)
+	w.floorSites(P, "R20.4", 3)
 
 	// R20.5 walker and diagnostics
 	var walker *ssa.Function
